@@ -137,6 +137,16 @@ def catalogue():
         A('J9', 'jinja2', jinja=True, FOO=[
             f + 'exit-script = """', '{% for w in ["a", "b"] %}',
             'echo {{ w }} ' + BS, '{% endfor %}', ' done', f + '"""']),
+        # expression values holding characters that some line splitters
+        # (str.splitlines, universal-newline file reading) take for line
+        # boundaries and others do not
+        A('J10', 'jinja2', jinja=True, FOO=[
+            f + "err-script = '''",
+            'echo {{ ["p", "q"] | join("' + BS + 'r") }}',
+            ' {{ "x' + BS + 'x0cy" }}', f + "'''"]),
+        A('J11', 'jinja2', jinja=True,
+          ENV=[e + "J11 = '''a{{ \"" + BS + "u2028\" }}b",
+               e + "  {{ \"c" + BS + "x1cd\" }}'''"]),
         # ---- repeated sections / keys, nesting
         A('S1', 'repeat', RUNTIME=[
             '    [[foo]]', '        [[[environment]]]',
